@@ -14,12 +14,28 @@ binding:   (a) one CASE line per value (every value up to length 5 / 6 over x : 
                ValueError leaves list(d.items()) unchanged, on accept the dump is read back with
                Deb822.iter_paragraphs from str, io.StringIO and io.BytesIO with
                whitespace-separates-paragraphs False and with the default setting;
-           (b) random assignment histories (values up to 40 characters over the domain, neighbour
-               fields holding previously accepted multi-line values) recorded from the real classes
-               and validated by TLC, which evaluates Classify / Validate / ReadBack on the concrete
-               code points.
+           (b) random assignment histories on two live objects (Deb822 / Dsc / Changes) interleaved
+               with multivalued-key assignments to throw-away objects, values re-used across keys,
+               objects and classes and repeated after rejections (values up to 40 characters over
+               the domain, new and existing keys) recorded from the real classes and validated by
+               TLC, which evaluates Classify / Validate / ReadBack on the concrete code points.
+           (a') spec/Deb822ValueHist.tla: the verdict of an assignment is HISTORY-FREE (closed LTS over
+               three live objects, keys A / N (absent) / Files, three values, multivalued-key
+               assignments to throw-away objects; implementation layer with a process-wide memo as
+               negative control).  Walks through the emitted LTS are replayed on live Deb822 / Dsc /
+               Changes objects: after EVERY step the outcome, the paragraphs of all live objects
+               (atomicity, nothing left behind, no aliasing) and the read-back verdicts.
+sizes:     (notes/SIZE_STRESS.md) the abstract cases stay small; every 8th (quick) / 4th CASE line and
+           every 3rd walk get a size-stressed concretization -- payload runs at 1..8193 and 64 KiB,
+           the first special character at offset 4095/4096/4097, a continuation line repeated
+           2..257 / 1000 times, field names of 31..1024 characters, paragraphs of 9..257 / 1000
+           fields.  These go through the replay legs only: their expectation is the one TLC computed
+           for the small value, length-independent by the size lemmas of Deb822Value
+           (StretchInvariant, RepeatInvariant).  TLC scans only short strings (traces: values <= 40,
+           field names <= 65 characters).
 negative controls run in every check: NoIndentRule, AllowEndLF, ValidateLFOnly, ReaderNoWsRule must
-make TLC report Sound violated; corrupted control traces must be rejected, a literal good one accepted.
+make TLC report Sound violated, MemoMode = "value" / "keyvalue" and RejectStoresEmpty HistoryFree;
+corrupted control traces must be rejected, a literal good one accepted.
 """
 import io
 import json
@@ -146,50 +162,164 @@ def read_all(d):
     return text, rb
 
 
+# ------------------------------------------------------------------ sizes (notes/SIZE_STRESS.md)
+# The abstract case (a CASE line / an LTS value) never changes; the concretization gets a size
+# dimension.  Expectations stay those TLC computed for the small value: by the size lemmas of
+# Deb822Value (StretchInvariant, RepeatInvariant) the classification does not depend on the length
+# of a payload run or on how often a continuation line is repeated, and "one paragraph with the
+# same field names" does not mention sizes at all.
+LEN_BOUNDS = [1, 2, 7, 8, 9, 15, 16, 17, 31, 32, 33, 63, 64, 65, 71, 72, 73, 79, 80, 81, 127, 128, 129,
+              255, 256, 257, 1023, 1024, 1025, 4095, 4096, 4097, 8191, 8192, 8193]
+BIG_LENS = [65535, 65536, 65537]
+OFFSETS = [4095, 4096, 4097, 4096, 8192, 1024, 255, 65536]
+COUNT_BOUNDS = [2, 3, 9, 10, 11, 16, 17, 31, 32, 33, 99, 100, 101, 255, 256, 257]
+BIG_COUNTS = [1000, 1001]
+KEY_LENS = [31, 32, 33, 63, 64, 65, 127, 128, 129, 255, 256, 257, 1024]
+FIELD_COUNTS = [9, 10, 11, 16, 17, 31, 32, 33, 99, 100, 101, 255, 256, 257]
+KEY_CHARS = "ABCDEFGHIJKLMNOPQRSTUVWXYZabcdefghijklmnopqrstuvwxyz0123456789-"
+
+
+def heavy(rng, pool, big=(), p_big=0.04):
+    """heavy-tailed choice: mostly the small end, regularly the far end, occasionally `big`"""
+    if big and rng.random() < p_big:
+        return rng.choice(list(big))
+    if rng.random() < 0.45:
+        return rng.choice(pool[len(pool) // 2:])
+    return rng.choice(pool)
+
+
+def long_key(rng, n, taken):
+    """a fresh field name of n characters (longer if the short ones are used up)"""
+    tries = 0
+    while True:
+        k = rng.choice(KEY_CHARS[:52]) + "".join(rng.choice(KEY_CHARS) for _ in range(max(n, 1) - 1))
+        if k.lower() not in taken and k.lower() not in MULTI_NAMES:
+            taken.add(k.lower())
+            return k
+        tries += 1
+        if tries % 4 == 0:
+            n += 1
+
+
+MULTI_NAMES = {"files", "checksums-sha1", "checksums-sha256", "checksums-sha512", "checksums-md5"}
+
+
 # ------------------------------------------------------------------ (a) CASE replay
 
 class Conc:
-    """keys of the three fields, neighbour values and one character per x of the value"""
+    """concretization of one CASE line: the paragraph (keys, neighbour values, index of the field
+    assigned to), one payload run per x of the value and an optional repetition of one
+    continuation line (a segment TLC listed as repeatable)"""
 
-    def __init__(self, rng=None, value=(), canonical=True):
-        if canonical or rng is None:
-            self.keys = ["A", "B", "C"]
-            self.nb = ["x", "x", "x"]
-            self.xs = ["x" for c in value if c == X]
-        else:
-            self.keys = rng.sample(KEY_POOL, 3)
-            self.nb = [pick_x(rng) for _ in range(3)]
-            self.xs = [pick_x(rng) for c in value if c == X]
+    def __init__(self, value=(), pos=1):
+        self.keys = ["A", "B", "C"]
+        self.nb = ["x", "x", "x"]
+        self.idx = pos - 1
+        self.xs = [["x", 1] for c in value if c == X]
+        self.rep = None
+        self.dims = []
+
+    @classmethod
+    def random(cls, rng, value, pos):
+        c = cls(value, pos)
+        c.keys = rng.sample(KEY_POOL, 3)
+        c.nb = [pick_x(rng) for _ in range(3)]
+        c.xs = [[pick_x(rng), 1] for _ in c.xs]
+        return c
+
+    @classmethod
+    def stress(cls, rng, case, pos, allow_big=True):
+        """one or two size dimensions pushed to a boundary neighbourhood"""
+        v = case["v"]
+        c = cls.random(rng, v, pos)
+        dims = []
+        if c.xs:
+            dims += ["xrun", "xrun"]
+            if v[0] == X and len(v) > 1:
+                dims += ["offset", "offset"]
+        if case.get("segs"):
+            dims += ["lines", "lines"]
+        dims += ["longkey", "fields"]
+        chosen = [rng.choice(dims)]
+        if rng.random() < 0.25:
+            chosen.append(rng.choice(dims))
+        for dim in chosen:
+            if dim in c.dims:
+                continue
+            c.dims.append(dim)
+            if dim == "xrun":
+                j = rng.choice([0, len(c.xs) - 1, rng.randrange(len(c.xs))])
+                n = heavy(rng, LEN_BOUNDS, BIG_LENS if allow_big else ())
+                c.xs[j] = [c.xs[j][0], n]
+            elif dim == "offset":                      # the character after the first run sits at offset n
+                c.xs[0] = [c.xs[0][0], rng.choice(OFFSETS if allow_big else OFFSETS[:-1])]
+            elif dim == "lines":
+                seg = rng.choice(sorted(map(tuple, case["segs"])))
+                n = heavy(rng, COUNT_BOUNDS, BIG_COUNTS if allow_big else (), p_big=0.08)
+                c.rep = [seg[0], seg[1], n]
+            elif dim == "longkey":
+                taken = set()
+                n = heavy(rng, KEY_LENS)
+                which = rng.choice(["assigned", "all"])
+                c.keys = [long_key(rng, n, taken) if (which == "all" or i == c.idx) else k for i, k in enumerate(c.keys)]
+            elif dim == "fields":
+                n = heavy(rng, FIELD_COUNTS, (1000,) if allow_big else (), p_big=0.03)
+                taken = set()
+                keys = [long_key(rng, rng.choice([1, 2, 7, 8, 15, 16, 17]), taken) for _ in range(n)]
+                c.idx = {1: 0, 2: n // 2, 3: n - 1}[pos]
+                keys[c.idx] = c.keys[pos - 1] if c.keys[pos - 1].lower() not in taken else keys[c.idx]
+                c.keys = keys
+                c.nb = [pick_x(rng) * rng.choice([1, 1, 2, 8]) for _ in range(n)]
+        return c
 
     def value(self, v):
         it = iter(self.xs)
-        return "".join(next(it) if c == X else chr(c) for c in v)
+        pieces = []
+        for c in v:
+            if c == X:
+                ch, n = next(it)
+                pieces.append(ch * n)
+            else:
+                pieces.append(chr(c))
+        if self.rep:
+            a, b, n = self.rep                                   # symbols a..b (1-based), n copies in all
+            return "".join(pieces[:b]) + "".join(pieces[a - 1:b]) * (n - 1) + "".join(pieces[b:])
+        return "".join(pieces)
 
     def to_json(self):
-        return {"keys": self.keys, "nb": self.nb, "xs": self.xs}
+        return {"keys": self.keys, "nb": self.nb, "idx": self.idx, "xs": self.xs, "rep": self.rep, "dims": self.dims}
 
     @classmethod
     def from_json(cls, j):
         c = cls.__new__(cls)
-        c.keys, c.nb, c.xs = list(j["keys"]), list(j["nb"]), list(j["xs"])
+        c.keys, c.nb, c.idx, c.xs, c.rep, c.dims = list(j["keys"]), list(j["nb"]), j["idx"], [list(x) for x in j["xs"]], j.get("rep"), j.get("dims", [])
         return c
 
 
-def check_case(case, clsname, pos, conc, route="setitem", stats=None):
-    """replay one CASE line at one position; returns (message or None, [drift notes]).
-    Expected values -- cls, blank, keys (as model code points, mapped through conc), wt -- come
-    from TLC; this function only drives the real class and compares."""
+def short(s, n=70):
+    """a long string for messages: head ... tail with the length"""
+    if len(s) <= n:
+        return show(s)
+    return "%s...%s (%d chars)" % (show(s[:30]), show(s[-30:]), len(s))
+
+
+def check_case(case, clsname, conc, route="setitem", stats=None):
+    """replay one CASE line; returns (message or None, [drift notes]).  Expected values -- cls, blank,
+    wt -- come from TLC; this function only drives the real class and compares."""
     v = conc.value(case["v"])
     cls = case["cls"]
     keys = conc.keys
+    idx = conc.idx
     start = [[k, n] for k, n in zip(keys, conc.nb)]
-    where = "%s %s[%r] = %s (field %d of %s)" % (clsname, "update" if route == "update" else "d", keys[pos - 1], show(v), pos, show(keys))
+    ksh = show(keys) if len(keys) <= 4 else "%d fields" % len(keys)
+    where = "%s %s[%s] = %s (field %d of %s%s)" % (clsname, "update" if route == "update" else "d", short(keys[idx], 40), short(v),
+                                                  idx + 1, ksh, ", size-stressed: " + "+".join(conc.dims) if conc.dims else "")
     drift = []
     try:
         d = build(clsname, start)
     except Exception as e:                                           # noqa: BLE001
         return "%s: building the start paragraph raised %s" % (where, type(e).__name__), drift
-    res = assign(d, keys[pos - 1], v, route)
+    res = assign(d, keys[idx], v, route)
     if stats is not None:
         stats[(cls, res)] = stats.get((cls, res), 0) + 1
     if res.startswith("EXC:"):
@@ -199,33 +329,34 @@ def check_case(case, clsname, pos, conc, route="setitem", stats=None):
     if cls == "reject" and res == "ok":
         return "%s was accepted; the value ends in a newline / has an empty or unindented continuation line (model: ValueError)" % where, drift
     if (res == "ok") != case["acc"]:
-        drift.append("acceptance of %s (class %s) differs from the transcription of validate_input" % (show(v), cls))
+        drift.append("acceptance of %s (class %s) differs from the transcription of validate_input" % (short(v), cls))
     try:
         items = project(d)
     except Exception as e:                                           # noqa: BLE001
         return "%s: reading the paragraph back raised %s" % (where, type(e).__name__), drift
     if res != "ok":
         if items != start:
-            return "%s raised ValueError but the paragraph changed: %s" % (where, show(items)), drift
+            return "%s raised ValueError but the paragraph changed: %s" % (where, short(show(items), 200)), drift
         return None, drift
-    stored = [[k, (v if i == pos - 1 else n)] for i, (k, n) in enumerate(zip(keys, conc.nb))]
+    stored = [[k, (v if i == idx else n)] for i, (k, n) in enumerate(zip(keys, conc.nb))]
     if items != stored:
-        drift.append("%s accepted but items() = %s" % (where, show(items)))
+        drift.append("%s accepted but items() differs from the stored value" % where)
     text, rb = read_all(d)
-    one = {"st": "ok", "paras": [keys]}                      # = OneParagraph(KeysOf(P0)) of the CASE line
-    kmap = {tuple(k): keys[i] for i, k in enumerate(case["keys"])}
+    one = {"st": "ok", "paras": [keys]}                      # = OneParagraph(q): one paragraph, same field names
+    canonical3 = len(keys) == 3 and len(case["keys"]) == 3 and not conc.dims
+    kmap = {tuple(k): keys[i] for i, k in enumerate(case["keys"])} if canonical3 else {}
     for f in FORMS:
         got = rb[f + "F"]
         if got != one:
             return ("%s accepted; dump %s read back (%s input, whitespace-separates-paragraphs=False) gives %s, expected one paragraph with keys %s"
-                    % (where, show(text), _formname(f), _rbshow(got), show(keys))), drift
+                    % (where, short(text or ""), _formname(f), _rbshow(got), ksh)), drift
         got = rb[f + "T"]
         if not case["blank"]:
             if got != one:
                 return ("%s accepted (no blank continuation line); dump %s read back (%s input, default setting) gives %s, expected one paragraph with keys %s"
-                        % (where, show(text), _formname(f), _rbshow(got), show(keys))), drift
-        elif case["acc"] and case["wt"]:
-            w = case["wt"][pos - 1]["str" if f == "s" else "file"]
+                        % (where, short(text or ""), _formname(f), _rbshow(got), ksh)), drift
+        elif canonical3 and case["acc"] and case["wt"]:
+            w = case["wt"][idx]["str" if f == "s" else "file"]
             exp = {"st": w["st"], "paras": [[kmap.get(tuple(k), txt(k)) for k in p] for p in w["paras"]]}
             if got != exp and all(tuple(k) in kmap for p in w["paras"] for k in p):
                 drift.append("%s: default-setting read-back (%s) %s, reader model %s" % (where, _formname(f), _rbshow(got), _rbshow(exp)))
@@ -233,6 +364,7 @@ def check_case(case, clsname, pos, conc, route="setitem", stats=None):
 
 
 CASE_CHUNK = 1500
+STRESS_EVERY = {"quick": 8, "thorough": 4}
 
 
 def replay_chunk(payload):
@@ -242,8 +374,9 @@ def replay_chunk(payload):
     seed, tier, off, chunk = payload
     quick = tier == "quick"
     rng = random.Random("C08-%s-cases-%d" % (seed, off))
-    out = {"n": 0, "stats": {}, "drift": [], "violations": []}
+    out = {"n": 0, "stats": {}, "drift": [], "violations": [], "stress": {}}
     stats = {}
+    big_left = 2 if quick else 12                      # 64 KiB values / 1000 lines / 1000 fields per chunk
     try:
         for j, c in enumerate(chunk):
             idx = off + j
@@ -251,26 +384,34 @@ def replay_chunk(payload):
             # canonical concretization: all three positions for what is accepted and read back,
             # one rotating position for the values the statement wants rejected
             canon_pos = (1, 2, 3) if c["cls"] in ("accept", "blank") else (1 + idx % 3,)
-            jobs = [("Deb822", pos, Conc(value=v), "setitem") for pos in canon_pos]
+            jobs = [("Deb822", Conc(v, pos), "setitem") for pos in canon_pos]
             # rotating extras: other class / other concretization / update() route
             k = idx % 6
             extra_pos = 1 + (idx // 6) % 3
             if k < 3:
-                jobs.append(("Dsc", extra_pos, Conc(rng, v, canonical=(k == 0)), "setitem"))
+                jobs.append((("Dsc", "Changes", "Dsc")[k], Conc(v, extra_pos) if k == 0 else Conc.random(rng, v, extra_pos), "setitem"))
             elif k < 5:
-                jobs.append(("Deb822", extra_pos, Conc(rng, v, canonical=False), "setitem"))
+                jobs.append(("Deb822", Conc.random(rng, v, extra_pos), "setitem"))
             else:
-                jobs.append(("Deb822", extra_pos, Conc(rng, v, canonical=False), "update"))
+                jobs.append(("Deb822", Conc.random(rng, v, extra_pos), "update"))
             if not quick:
-                jobs.append(("Dsc" if idx % 2 else "Deb822", 1 + (idx // 2) % 3, Conc(rng, v, canonical=False), "setitem"))
-            for clsname, pos, conc, route in jobs:
-                msg, drift = check_case(c, clsname, pos, conc, route, stats)
+                jobs.append((("Dsc", "Deb822", "Changes")[idx % 3], Conc.random(rng, v, 1 + (idx // 2) % 3), "setitem"))
+            # every k-th case also gets a size-stressed concretization
+            if idx % STRESS_EVERY[tier] == 0 and len(v) >= 1:
+                sc = Conc.stress(rng, c, 1 + (idx // 8) % 3, allow_big=big_left > 0)
+                if (sc.rep and sc.rep[2] >= 1000) or any(n >= 65535 for _, n in sc.xs) or len(sc.keys) >= 1000:
+                    big_left -= 1
+                jobs.append((("Deb822", "Dsc", "Deb822", "Changes")[(idx // 8) % 4], sc, "setitem"))
+                for dname in sc.dims:
+                    out["stress"][dname] = out["stress"].get(dname, 0) + 1
+            for clsname, conc, route in jobs:
+                msg, drift = check_case(c, clsname, conc, route, stats)
                 out["n"] += 1
                 if drift and len(out["drift"]) < 3:
                     out["drift"].append(drift[0])
                 if msg:
                     if len(out["violations"]) < 3:
-                        out["violations"].append(({"kind": "case", "case": c, "cls": clsname, "pos": pos,
+                        out["violations"].append(({"kind": "case", "case": c, "cls": clsname,
                                                    "conc": conc.to_json(), "route": route}, msg))
                     break
         out["stats"] = {"%s/%s" % k: n for k, n in stats.items()}
@@ -284,11 +425,191 @@ def _formname(f):
 
 
 def _rbshow(r):
-    return r["st"] if r["st"] != "ok" else "%d paragraph(s) %s" % (len(r["paras"]), show(r["paras"]))
+    if r["st"] != "ok":
+        return r["st"]
+    if sum(len(p) for p in r["paras"]) > 8:
+        return "%d paragraph(s) with %s field(s)" % (len(r["paras"]), "+".join(str(len(p)) for p in r["paras"]))
+    return "%d paragraph(s) %s" % (len(r["paras"]), show(r["paras"]))
+
+
+# ------------------------------------------------------------------ (a') LTS walks: histories on live objects
+
+MODEL_KEYS = {(65,): "A", (78,): "N", (70, 105, 108, 101, 115): "F"}
+S_CLASSES = ("Dsc", "Changes")
+
+
+class HistConc:
+    """concretization of one walk through the LTS of Deb822ValueHist: real classes of the three
+    live objects, field names for A / N (Files stays Files), padding fields in front of A, and ONE
+    concrete string per model value for the whole walk (the same value goes to different keys,
+    objects and classes)"""
+
+    def __init__(self, rng, values, stress):
+        self.classes = ["Deb822", rng.choice(S_CLASSES), rng.choice(S_CLASSES)]
+        taken = set()
+        klen = heavy(rng, KEY_LENS) if (stress and rng.random() < 0.3) else 0
+        names = rng.sample(KEY_POOL, 2)
+        self.keymap = {"A": long_key(rng, klen, taken) if klen else names[0],
+                       "N": long_key(rng, klen + 1, taken) if klen else names[1],
+                       "F": rng.choice(["Files", "files", "FILES"])}
+        taken |= {k.lower() for k in self.keymap.values()}
+        npad = heavy(rng, [0, 1, 2, 9, 15, 16, 31, 32, 97, 98, 254]) if (stress and rng.random() < 0.4) else rng.choice([0, 0, 0, 1, 2])
+        self.pad = [[long_key(rng, rng.choice([2, 7, 8, 16]), taken), simple_value(rng)] for _ in range(npad)]
+        self.valmap = {}
+        for val in values:
+            c = {"v": val["v"], "segs": val["segs"]}
+            if stress and rng.random() < 0.6:
+                conc = Conc.stress(rng, c, 1, allow_big=rng.random() < 0.1)
+                conc.keys, conc.nb, conc.idx = ["A", "B", "C"], ["x"] * 3, 0      # only the value part is used
+            else:
+                conc = Conc.random(rng, val["v"], 1)
+            self.valmap[tuple(val["v"])] = conc.value(val["v"])
+
+    def key(self, k):
+        return self.keymap[MODEL_KEYS[tuple(k)]]
+
+    def para(self, model_para):
+        return [list(f) for f in self.pad] + [[self.key(f["k"]), self.valmap[tuple(f["v"])]] for f in model_para]
+
+    def to_json(self):
+        return {"classes": self.classes, "keymap": self.keymap, "pad": self.pad,
+                "valmap": [[list(k), v] for k, v in self.valmap.items()]}
+
+    @classmethod
+    def from_json(cls, j):
+        c = cls.__new__(cls)
+        c.classes, c.keymap, c.pad = list(j["classes"]), dict(j["keymap"]), [list(f) for f in j["pad"]]
+        c.valmap = {tuple(k): v for k, v in j["valmap"]}
+        return c
+
+
+def gen_walk(rng, g, n):
+    """walk through the LTS biased towards the leak scenarios: repeat an assignment after a
+    rejection, give the same value to another key / object / class, follow a multivalued-key
+    assignment by the same value on a validated key"""
+    s = g.init
+    path = []
+    prev = None
+    for _ in range(n):
+        outs = g.out[s]
+        e = None
+        r = rng.random()
+        if prev is not None:
+            same_val = [x for x in outs if x["args"][2] == prev["args"][2] and x["op"] == "assign"]
+            if prev["op"] == "scratch" and r < 0.7:
+                e = rng.choice(same_val)
+            elif prev["res"] == "ValueError" and r < 0.3:
+                e = next(x for x in outs if x["op"] == prev["op"] and x["args"] == prev["args"])
+            elif r < 0.55:
+                e = rng.choice(same_val)
+        if e is None:
+            e = rng.choices(outs, weights=[3 if x["from"] != x["to"] else (2 if x["op"] == "scratch" else 1) for x in outs])[0]
+        path.append(e)
+        prev = e
+        s = e["_t"]
+    return path
+
+
+def run_walk(path, init_state, hc, full_every=6):
+    """replay one walk on three live objects (+ throw-away objects for the multivalued-key steps);
+    returns (message or None, steps executed).  After EVERY step: result as the model says, the
+    paragraph of every live object as the model says (atomicity of rejections, no aliasing between
+    paragraphs, nothing left behind); after an accepted step the read-back verdicts of that object,
+    every `full_every` steps and at the end those of all objects."""
+    objs = []
+    try:
+        for o, clsname in enumerate(hc.classes):
+            objs.append(build(clsname, hc.para(init_state[o])))
+    except Exception as e:                                           # noqa: BLE001
+        return "building the start paragraphs raised %s" % type(e).__name__, 0
+    prev_items = [project(d) for d in objs]
+    for o in range(len(objs)):
+        if prev_items[o] != hc.para(init_state[o]):
+            return "start paragraph %d reads %s" % (o + 1, short(show(prev_items[o]), 200)), 0
+    n = 0
+    for i, e in enumerate(path):
+        n += 1
+        o, k, v = e["args"]
+        val = hc.valmap[tuple(v)]
+        if e["op"] == "scratch":
+            clsname = hc.classes[1 + i % 2]
+            where = "step %d: %s()[%r] = %s on a throw-away object (multivalued key)" % (i + 1, clsname, hc.key(k), short(val))
+            try:
+                tmp = get_class(clsname)()
+                assign(tmp, hc.key(k), val)                          # outcome not decided by the statement
+            except Exception:                                        # noqa: BLE001
+                pass
+            target = None
+        else:
+            target = o - 1
+            where = "step %d: object %d (%s) [%s] = %s" % (i + 1, o, hc.classes[target], short(hc.key(k), 40), short(val))
+            res = assign(objs[target], hc.key(k), val, "update" if i % 7 == 3 else "setitem")
+            if res != e["res"]:
+                return "%s: outcome %s, the model says %s (history: %d earlier steps, previous step %s)" % (
+                    where, res, e["res"], i, _stepshow(path[i - 1], hc) if i else "none"), n
+        for q, d in enumerate(objs):
+            try:
+                items = project(d)
+            except Exception as ex:                                  # noqa: BLE001
+                return "%s: reading object %d raised %s" % (where, q + 1, type(ex).__name__), n
+            exp = hc.para(e["to"][q])
+            if q == target and e["res"] == "ok":
+                if [kv[0] for kv in items] != [kv[0] for kv in exp]:
+                    return "%s accepted: field names are now %s, the model says %s" % (where, short(show([kv[0] for kv in items]), 200), short(show([kv[0] for kv in exp]), 200)), n
+            elif items != prev_items[q] or [kv[0] for kv in items] != [kv[0] for kv in exp]:
+                what = "the rejected assignment changed the paragraph" if q == target else "live object %d (%s) changed" % (q + 1, hc.classes[q])
+                return "%s: %s: %s -> %s" % (where, what, short(show(prev_items[q]), 160), short(show(items), 160)), n
+            prev_items[q] = items
+        todo = []
+        if target is not None and e["res"] == "ok":
+            todo.append(target)
+        if (i + 1) % full_every == 0 or i == len(path) - 1:
+            todo = list(range(len(objs)))
+        for q in todo:
+            text, rb = read_all(objs[q])
+            keys = [kv[0] for kv in prev_items[q]]
+            one = {"st": "ok", "paras": [keys]}
+            for f in FORMS:
+                for ws in "FT":                                      # model values have no blank continuation line
+                    if rb[f + ws] != one:
+                        return "%s: object %d dumped %s reads back (%s input, %s) as %s, expected one paragraph with its %d field names" % (
+                            where, q + 1, short(text or ""), _formname(f), "setting False" if ws == "F" else "default setting", _rbshow(rb[f + ws]), len(keys)), n
+    return None, n
+
+
+def _stepshow(e, hc):
+    o, k, v = e["args"]
+    return "%s %s[%s]=%s -> %s" % (e["op"], o, hc.key(k), short(hc.valmap[tuple(v)], 30), e["res"])
+
+
+def walk_chunk(payload):
+    import random
+    import traceback
+    from lts import LTS, strip
+    seed, tier, off, nwalks, wlen, edges, init, values = payload
+    rng = random.Random("C08-%s-walks-%d" % (seed, off))
+    out = {"n": 0, "steps": 0, "violations": [], "ops": {}}
+    try:
+        g = LTS(edges, init)
+        for w in range(nwalks):
+            stress = (off + w) % 3 == 0
+            hc = HistConc(rng, values, stress)
+            path = gen_walk(rng, g, wlen)
+            msg, n = run_walk(path, init, hc)
+            out["n"] += 1
+            out["steps"] += n
+            for e in path[:n]:
+                kk = "%s/%s" % (e["op"], e["res"])
+                out["ops"][kk] = out["ops"].get(kk, 0) + 1
+            if msg and len(out["violations"]) < 2:
+                out["violations"].append(({"kind": "walk", "init": init, "path": [strip(e) for e in path], "conc": hc.to_json()},
+                                          "history on live objects %s: %s" % (hc.classes, msg)))
+    except Exception:                                                # noqa: BLE001
+        out["crash"] = traceback.format_exc()
+    return out
 
 
 # ------------------------------------------------------------------ (b) trace recording
-
 BOUNDARIES = ["\n"] * 7 + ["\r\n"] * 2 + ["\r"]
 
 
@@ -385,48 +706,101 @@ def rb_get(rbj, n):
 NO_RB = {"o": [], "ix": {n: 0 for n in RBNAMES}}
 
 
-def record_trace(rng, clsname, nev, script=None):
-    """random assignment history on one real object; `script` = [(pos, value, route)] re-executes
-    a recorded one"""
+
+
+TRACE_CLASSES = ("Deb822", "Dsc", "Changes")
+SCRATCH_KEYS = ("Files", "files", "Checksums-Sha1", "Checksums-Sha256")
+LONG_KEYS = ["X-" + "k" * 31, "Y" * 32, "Z-" + "q" * 62, "W" * 65]          # 33, 32, 64, 65 characters
+
+
+def _items_all(objs):
+    out = []
+    for d in objs:
+        try:
+            out.append(project(d))
+        except Exception as e:                                       # noqa: BLE001
+            out.append([["<items() raised %s>" % type(e).__name__, ""]])
+    return out
+
+
+def record_trace(rng, nev, script=None):
+    """random assignment history on TWO live objects (any of Deb822 / Dsc / Changes) interleaved with
+    multivalued-key assignments to throw-away objects; values are re-used across keys, objects and
+    classes and repeated after rejections.  `script` re-executes a recorded history."""
     if script is None:
-        keys = rng.sample(KEY_POOL, rng.randint(3, 4))
-        start = [[k, simple_value(rng)] for k in keys]
+        classes = [rng.choice(TRACE_CLASSES), rng.choice(TRACE_CLASSES)]
+        starts = []
+        for _ in classes:
+            pool = KEY_POOL + ([rng.choice(LONG_KEYS)] if rng.random() < 0.2 else [])
+            keys = rng.sample(pool, rng.randint(1, 3))
+            starts.append([[k, simple_value(rng)] for k in keys])
     else:
-        start = script["start"]
-        keys = [k for k, _ in start]
-    d = build(clsname, start)
-    init = project(d)
+        classes, starts = script["classes"], script["starts"]
+    objs = [build(c, st) for c, st in zip(classes, starts)]
+    init = _items_all(objs)
     events, calls = [], []
+    newkeys = 0
+    used = []                                     # values given so far
+    last = None
     for i in range(nev if script is None else len(script["calls"])):
         if script is None:
-            pos = rng.randint(1, len(keys))
-            v = gen_value(rng)
+            r = rng.random()
+            if last is not None and last[4] != "ok" and r < 0.25:
+                obj, clsname, key, v, _ = last                                 # the same call again after a rejection
+            else:
+                obj = 0 if r > 0.88 else rng.randint(1, len(objs))
+                if used and rng.random() < 0.4:
+                    v = rng.choice(used[-4:])                                  # the same value elsewhere
+                else:
+                    v = gen_value(rng)
+                if obj == 0:
+                    clsname = rng.choice(TRACE_CLASSES[1:])
+                    key = rng.choice(SCRATCH_KEYS)
+                else:
+                    clsname = classes[obj - 1]
+                    present = [k for k in objs[obj - 1]]
+                    if len(present) < 5 and rng.random() < 0.3:
+                        cand = [k for k in KEY_POOL + LONG_KEYS[:2] + ["Files"] if k not in present
+                                and not (clsname != "Deb822" and k.lower() in MULTI_NAMES)]
+                        key = rng.choice(cand)
+                    else:
+                        key = rng.choice(present)
+                        if rng.random() < 0.2:
+                            key = rng.choice([key.lower(), key.upper()])       # another spelling of the same field
             route = "update" if rng.random() < 0.15 else "setitem"
         else:
-            pos, v, route = script["calls"][i]
-        res = assign(d, keys[pos - 1], v, route)
-        try:
-            items = project(d)
-        except Exception as e:                                       # noqa: BLE001
-            items = [["<items() raised %s>" % type(e).__name__, ""]]
-        if res == "ok":
-            _, rb = read_all(d)
+            obj, clsname, key, v, route = script["calls"][i]
+        if obj != 0 and key not in objs[obj - 1]:
+            newkeys += 1
+        if obj == 0:
+            try:
+                res = assign(get_class(clsname)(), key, v, route)
+            except Exception as e:                                   # noqa: BLE001
+                res = "EXC:" + type(e).__name__
+        else:
+            res = assign(objs[obj - 1], key, v, route)
+        items = _items_all(objs)
+        if obj != 0 and res == "ok":
+            _, rb = read_all(objs[obj - 1])
             rbj = enc_rb(rb)
         else:
             rbj = NO_RB
-        calls.append([pos, v, route])
-        events.append({"pos": pos, "v": cp(v), "acc": res == "ok", "res": res, "items": enc_para(items), "rb": rbj})
-    return {"cls": clsname, "init": enc_para(init), "events": events,
-            "script": {"start": start, "calls": calls}}
+        used.append(v)
+        last = (obj, clsname, key, v, res)
+        calls.append([obj, clsname, key, v, route])
+        events.append({"obj": obj, "cls": clsname, "key": cp(key), "v": cp(v), "acc": res == "ok", "res": res,
+                       "items": [enc_para(p) for p in items], "rb": rbj})
+    return {"objs": [{"cls": c, "para": enc_para(p)} for c, p in zip(classes, init)], "events": events, "newkeys": newkeys,
+            "script": {"classes": classes, "starts": starts, "calls": calls}}
 
 
 def slim(t):
-    return {"init": t["init"], "deep": t.get("deep", True), "events": t["events"]}
+    return {"objs": t["objs"], "deep": t.get("deep", True), "events": t["events"]}
 
 
-def _ev(pos, v, acc, items, rb=None, res=None):
-    return {"pos": pos, "v": cp(v), "acc": acc, "res": res or ("ok" if acc else "ValueError"),
-            "items": enc_para(items), "rb": rb or NO_RB}
+def _ev(obj, cls, key, v, acc, items, rb=None, res=None):
+    return {"obj": obj, "cls": cls, "key": cp(key), "v": cp(v), "acc": acc, "res": res or ("ok" if acc else "ValueError"),
+            "items": [enc_para(p) for p in items], "rb": rb or NO_RB}
 
 
 def _rb(keys, **over):
@@ -436,40 +810,57 @@ def _rb(keys, **over):
     return enc_rb(r)
 
 
+def _tr(events, p1=None, p2=None):
+    return {"objs": [{"cls": "Deb822", "para": enc_para(p1 or P3)}, {"cls": "Dsc", "para": enc_para(p2 or Q1)}],
+            "deep": True, "events": events}
+
+
 P3 = [["A", "x"], ["B", "x"], ["C", "x"]]
+Q1 = [["Source", "x"]]
 K3 = ["A", "B", "C"]
-# literal traces: what the real code does today on four assignments -- must be accepted
-GOOD_TRACE = {"init": enc_para(P3), "deep": True, "events": [
-    _ev(2, "y\n z: w", True, [["A", "x"], ["B", "y\n z: w"], ["C", "x"]], _rb(K3)),
-    _ev(1, "y\nz: w", False, [["A", "x"], ["B", "y\n z: w"], ["C", "x"]]),
-    _ev(3, "y\n \n z", True, [["A", "x"], ["B", "y\n z: w"], ["C", "y\n \n z"]],
+PB = [["A", "x"], ["B", "y\n z: w"], ["C", "x"]]
+# literal traces: what the real code does today -- must be accepted
+GOOD_TRACE = _tr([
+    _ev(1, "Deb822", "B", "y\n z: w", True, [PB, Q1], _rb(K3)),
+    _ev(1, "Deb822", "A", "y\nz: w", False, [PB, Q1]),
+    _ev(0, "Dsc", "Files", "y\nz: w", True, [PB, Q1]),                          # multivalued key: not validated
+    _ev(1, "Deb822", "A", "y\nz: w", False, [PB, Q1]),                          # ... and no later verdict changes
+    _ev(2, "Dsc", "Binary", "y\nz: w", False, [PB, Q1]),
+    _ev(2, "Dsc", "Binary", "y\n z", True, [PB, Q1 + [["Binary", "y\n z"]]], _rb(["Source", "Binary"])),
+    _ev(1, "Deb822", "c", "y\n \n z", True, [[["A", "x"], ["B", "y\n z: w"], ["C", "y\n \n z"]], Q1 + [["Binary", "y\n z"]]],
         _rb(K3, sT=[K3], fT=[K3], bT=[K3])),
-    _ev(1, "y\rz", False, [["A", "x"], ["B", "y\n z: w"], ["C", "y\n \n z"]]),
-]}
+    _ev(1, "Deb822", "Files", "y\rz", False, [[["A", "x"], ["B", "y\n z: w"], ["C", "y\n \n z"]], Q1 + [["Binary", "y\n z"]]]),
+])
 
 
 def control_traces():
     """corrupted literal traces: each must be rejected by TraceDeb822Value"""
+    bad = "y\nz: w"
     out = []
     # an injecting value reported as accepted, with the read-back it would give
-    out.append({"init": enc_para(P3), "deep": True, "events": [
-        _ev(2, "y\nz: w", True, [["A", "x"], ["B", "y\nz: w"], ["C", "x"]], _rb(K3, **{n: [["A", "B", "z", "C"]] for n in RBNAMES}))]})
+    out.append(_tr([_ev(1, "Deb822", "B", bad, True, [[["A", "x"], ["B", bad], ["C", "x"]], Q1],
+                        _rb(K3, **{n: [["A", "B", "z", "C"]] for n in RBNAMES}))]))
     # ... and with a read-back that hides it: acceptance alone must be rejected
-    out.append({"init": enc_para(P3), "deep": True, "events": [
-        _ev(2, "y\nz: w", True, [["A", "x"], ["B", "y\nz: w"], ["C", "x"]], _rb(K3))]})
+    out.append(_tr([_ev(1, "Deb822", "B", bad, True, [[["A", "x"], ["B", bad], ["C", "x"]], Q1], _rb(K3))]))
+    # the same after a multivalued-key assignment of that value (memo keyed by the value only)
+    out.append(_tr([_ev(0, "Dsc", "Files", bad, True, [P3, Q1]),
+                    _ev(2, "Dsc", "Source", bad, True, [P3, [["Source", bad]]], _rb(["Source"]))]))
     # a clean value reported as rejected
-    out.append({"init": enc_para(P3), "deep": True, "events": [_ev(2, "y\n z", False, P3)]})
+    out.append(_tr([_ev(1, "Deb822", "B", "y\n z", False, [P3, Q1])]))
     # accepted, but one read-back shows an extra field / a split / a truncation
-    out.append({"init": enc_para(P3), "deep": True, "events": [
-        _ev(2, "y\n z: w", True, [["A", "x"], ["B", "y\n z: w"], ["C", "x"]], _rb(K3, fF=[["A", "B", "z", "C"]]))]})
-    out.append({"init": enc_para(P3), "deep": True, "events": [
-        _ev(2, "y\n z", True, [["A", "x"], ["B", "y\n z"], ["C", "x"]], _rb(K3, sT=[["A", "B"], ["C"]]))]})
-    out.append({"init": enc_para(P3), "deep": True, "events": [
-        _ev(2, "y\n z", True, [["A", "x"], ["B", "y\n z"], ["C", "x"]], _rb(K3, bF=[["A", "B"]]))]})
-    # rejected, but the paragraph changed
-    out.append({"init": enc_para(P3), "deep": True, "events": [_ev(2, "y\n", False, [["A", "x"], ["B", "y\n"], ["C", "x"]])]})
+    out.append(_tr([_ev(1, "Deb822", "B", "y\n z: w", True, [PB, Q1], _rb(K3, fF=[["A", "B", "z", "C"]]))]))
+    out.append(_tr([_ev(1, "Deb822", "B", "y\n z", True, [[["A", "x"], ["B", "y\n z"], ["C", "x"]], Q1], _rb(K3, sT=[["A", "B"], ["C"]]))]))
+    out.append(_tr([_ev(1, "Deb822", "B", "y\n z", True, [[["A", "x"], ["B", "y\n z"], ["C", "x"]], Q1], _rb(K3, bF=[["A", "B"]]))]))
+    # rejected, but the paragraph changed / the new key stays behind with an empty value
+    out.append(_tr([_ev(1, "Deb822", "B", "y\n", False, [[["A", "x"], ["B", "y\n"], ["C", "x"]], Q1])]))
+    out.append(_tr([_ev(2, "Dsc", "Binary", "y\n", False, [P3, Q1 + [["Binary", ""]]])]))
+    # the OTHER live paragraph changed (aliasing), on an accepted and on a multivalued-key assignment
+    out.append(_tr([_ev(1, "Deb822", "B", "y", True, [[["A", "x"], ["B", "y"], ["C", "x"]], [["Source", "y"]]], _rb(K3))]))
+    out.append(_tr([_ev(0, "Changes", "Files", "y", True, [P3, Q1 + [["Files", "y"]]])]))
+    # a new key that does not show up at the end of the field names
+    out.append(_tr([_ev(2, "Dsc", "Binary", "y", True, [P3, [["Binary", "y"], ["Source", "x"]]], _rb(["Binary", "Source"]))]))
     # wrong exception type
-    out.append({"init": enc_para(P3), "deep": True, "events": [_ev(2, "y\n", False, P3, res="EXC:TypeError")]})
+    out.append(_tr([_ev(1, "Deb822", "B", "y\n", False, [P3, Q1], res="EXC:TypeError")]))
     return out
 
 
@@ -478,7 +869,7 @@ def corrupt(t):
     import copy
     out = []
     for i, e in enumerate(t["events"]):
-        if e["acc"]:
+        if e["acc"] and e["obj"] != 0:
             c = copy.deepcopy(slim(t))
             rbj = c["events"][i]["rb"]
             r = copy.deepcopy(rb_get(rbj, "sF"))
@@ -488,9 +879,10 @@ def corrupt(t):
             out.append(c)
             break
     for i, e in enumerate(t["events"]):
-        if not e["acc"]:
+        if not e["acc"] and e["obj"] != 0:
             c = copy.deepcopy(slim(t))
-            c["events"][i]["items"] = c["events"][i]["items"][:-1]
+            other = 2 - e["obj"]                                     # 0-based index of the other live object
+            c["events"][i]["items"][other] = c["events"][i]["items"][other] + [{"k": [120], "v": []}]
             out.append(c)
             break
     return out
@@ -539,23 +931,36 @@ def cfg_variant(name, **subst):
     return text
 
 
-NEG_CONTROLS = ("NoIndentRule", "AllowEndLF", "ValidateLFOnly", "ReaderNoWsRule")
+NEG_CONTROLS = (
+    ("NoIndentRule", "Deb822Value", "MC_Deb822Value_neg.cfg", {"NoIndentRule": "TRUE"}, "Sound"),
+    ("AllowEndLF", "Deb822Value", "MC_Deb822Value_neg.cfg", {"AllowEndLF": "TRUE"}, "Sound"),
+    ("ValidateLFOnly", "Deb822Value", "MC_Deb822Value_neg.cfg", {"ValidateLFOnly": "TRUE"}, "Sound"),
+    ("ReaderNoWsRule", "Deb822Value", "MC_Deb822Value_neg.cfg", {"ReaderNoWsRule": "TRUE"}, "Sound"),
+    ("MemoByValueOnly", "Deb822ValueHist", "MC_Deb822ValueHist_neg.cfg", {"MemoMode": '"value"'}, "HistoryFree"),
+    ("MemoByKeyValue", "Deb822ValueHist", "MC_Deb822ValueHist_neg.cfg", {"MemoMode": '"keyvalue"'}, "HistoryFree"),
+    ("RejectStoresEmpty", "Deb822ValueHist", "MC_Deb822ValueHist_neg.cfg", {"RejectStoresEmpty": "TRUE"}, "HistoryFree"),
+)
 
 
 def spec_negative_controls(ctx):
-    """Sound is not vacuous: each weakened validator / reader must make TLC report it violated"""
-    def one(name):
-        r = ctx.tlc("Deb822Value", cfg_variant("MC_Deb822Value_neg.cfg", **{name: "TRUE"}), count=False,
-                    workers=1, want_tags=set(), java_opts=["-XX:TieredStopAtLevel=1"])     # a few hundred states
-        return name, r.violated
-    with ThreadPoolExecutor(max_workers=len(NEG_CONTROLS)) as ex:
+    """the properties are not vacuous: each weakened validator / reader / memo must make TLC report
+    the violation"""
+    def one(job):
+        name, module, cfg, sub, want = job
+        r = ctx.tlc(module, cfg_variant(cfg, **sub), count=False, workers=1, want_tags=set(),
+                    java_opts=["-XX:TieredStopAtLevel=1"])                    # a few hundred states
+        return name, want, r.violated
+    with ThreadPoolExecutor(max_workers=4) as ex:
         results = list(ex.map(one, NEG_CONTROLS))
     out = {}
-    for name, got in results:
+    for name, want, got in results:
         out[name] = got
-        if got != "Sound":
-            raise core.MachineryError("spec-level negative control %s: expected Sound violated, TLC reports %r" % (name, got))
+        if got != want:
+            raise core.MachineryError("spec-level negative control %s: expected %s violated, TLC reports %r" % (name, want, got))
     ctx.extra["spec_negative_controls"] = out
+
+
+H_INIT = [[{"k": [65], "v": [120]}] for _ in range(3)]
 
 
 def run(ctx):
@@ -565,7 +970,9 @@ def run(ctx):
     maxlen = 5 if quick else 6
     ctx.assumptions += [
         "bounded: every value up to length %d over 7 code points (x : # space tab CR LF) at the first/middle/last field of A: x / B: x / C: x; longer values and richer neighbour values are sampled (traces, values up to 40 characters)" % maxlen,
-        "unspecified acceptance, executed but never judged: 'zone' (a lone CR followed by something that is not indentation -- a defect only if CR ends a line; rejected today) and 'blank' (a whitespace-only continuation line; accepted today). Whatever the code accepts must read back as one paragraph with the same keys (setting False; default setting only when no value in the paragraph has a blank continuation line)",
+        "histories: closed LTS over three live objects (Deb822, Dsc/Changes x 2), keys A / N (absent at first) / Files, values 'x\\n x' / 'x\\nx:x' / 'x\\n' plus multivalued-key assignments to throw-away objects; the reference is history-free, the code has no memo (negative controls: memo by value, by (key, value), rejected assignment leaving an empty field)",
+        "sizes: payload runs up to 64 KiB, 100 / 1000 continuation lines, field names up to 1024 characters, paragraphs up to 1000 fields, the first special character at offset 4095 / 4096 / 4097 go through the CASE / LTS replay only; their expectation is the one TLC computed for the small value (size lemmas StretchInvariant / RepeatInvariant checked by TLC for one duplication step up to the bound); TLC itself scans strings of <= 40 characters (field names <= 65) in trace validation",
+        "unspecified acceptance, executed but never judged: 'zone' (a lone CR followed by something that is not indentation -- a defect only if CR ends a line; rejected today), 'blank' (a whitespace-only continuation line; accepted today) and every assignment to a multivalued key of Dsc / Changes (not validated today). Whatever the code accepts must read back as one paragraph with the same keys (setting False; default setting only when no value in the paragraph has a blank continuation line)",
         "the domain excludes every character Python treats as whitespace or line boundary beyond space, tab, CR, LF (DESIGN.md D1): never generated",
         "concretization of x is class-preserving and sampled (printable ASCII incl. '-', Latin-1, CJK, astral); concrete values are cross-checked by trace validation on the code points",
         "trusted: TLC, the projections (list(d.items()), key lists of iter_paragraphs), the concretizer",
@@ -573,19 +980,19 @@ def run(ctx):
     workers = min(8, core.NCPU)
     phase = {}
     t_ph = time.time()
-    # worker processes for the CASE replay are forked now, before any thread exists
+    # worker processes for the replay legs are forked now, before any thread exists
     import multiprocessing
     pool = multiprocessing.get_context("fork").Pool(min(4 if quick else 6, core.NCPU))
 
     # 1. (b) code -> spec: assignment histories are recorded first; TLC validates them on the
     #    code points in the background while the bounded configuration runs and is replayed
-    ntr, nev, deep_every = (400, 8, 1) if quick else (5000, 10, 4)
-    traces = [record_trace(rng, CLASSES[i % 2], nev) for i in range(ntr)]
+    ntr, nev, deep_every = (240, 10, 1) if quick else (4000, 12, 4)
+    traces = [record_trace(rng, nev) for i in range(ntr)]
     for i, t in enumerate(traces):
         t["deep"] = (i % deep_every == 0)         # reader model evaluated by TLC on these (diagnostic)
     phase["trace_record_s"] = round(time.time() - t_ph, 1)
     t_ph = time.time()
-    chunk = 3500
+    chunk = 2000
 
     def validate_all():
         res = []
@@ -595,15 +1002,33 @@ def run(ctx):
     ex_val = ThreadPoolExecutor(max_workers=1)
     f_val = ex_val.submit(validate_all)
 
-    # 2. spec-level negative controls and the bounded configuration, side by side
+    # 2. spec-level negative controls, the bounded configuration and the history LTS, side by side
     try:
-        with ThreadPoolExecutor(max_workers=3) as ex:
+        with ThreadPoolExecutor(max_workers=4) as ex:
             f_neg = ex.submit(spec_negative_controls, ctx)
             f_bnd = ex.submit(ctx.tlc_must_hold, "Deb822Value",
                               "MC_Deb822Value_quick.cfg" if quick else "MC_Deb822Value.cfg",
                               workers=workers, want_tags={"CASE"})
+            f_lts = ex.submit(ctx.tlc_must_hold, "Deb822ValueHist", "MC_Deb822ValueHist.cfg", workers=1,
+                              want_tags={"EDGE", "VALUE"})
             f_zone = None if quick else ex.submit(ctx.tlc_must_hold, "Deb822Value", "MC_Deb822Value_zone.cfg",
                                                   workers=2, want_tags={"CASE"})
+            r_lts = f_lts.result()
+            # 3'. walks through the history LTS start as soon as it is there
+            edges = r_lts.printed.get("EDGE", [])
+            values = r_lts.printed.get("VALUE", [])
+            if not edges or any(not isinstance(e, dict) for e in edges) or len(values) != 4:
+                raise core.MachineryError("history LTS: %d EDGE lines, %d VALUE lines" % (len(edges), len(values)))
+            from lts import LTS
+            g = LTS(edges, H_INIT)
+            if g.init not in g.out or len(g.states) != r_lts.distinct:
+                raise core.MachineryError("history LTS: %d states from EDGE lines, TLC found %d" % (len(g.states), r_lts.distinct))
+            hvalues = [v for v in values if tuple(v["v"]) != (120,)] + [v for v in values if tuple(v["v"]) == (120,)]
+            nwalks, wlen, wchunk = (160, 24, 20) if quick else (3000, 40, 100)
+            slim_edges = [{k: e[k] for k in ("from", "op", "args", "res", "to")} for e in g.edges]
+            wpay = [(ctx.seed, ctx.tier, off, min(wchunk, nwalks - off), wlen, slim_edges, H_INIT, hvalues)
+                    for off in range(0, nwalks, wchunk)]
+            a_walks = pool.map_async(walk_chunk, wpay)
             f_neg.result()
             r_bnd = f_bnd.result()
             r_zone = f_zone.result() if f_zone else None
@@ -618,24 +1043,33 @@ def run(ctx):
     zones = {}
     for c in cases:
         zones[c["cls"]] = zones.get(c["cls"], 0) + 1
+    ops = {}
+    for e in g.edges:
+        kk = "%s/%s" % (e["op"], e["res"])
+        ops[kk] = ops.get(kk, 0) + 1
     ctx.extra["model"] = {"alphabet": [120, 58, 35, 32, 9, 13, 10], "max_len": maxlen, "values": len(cases),
                           "classes": zones,
                           "zone_what_if_len4": (None if r_zone is None else {
                               "zone_values": sum(1 for c in r_zone.printed.get("CASE", []) if c["cls"] == "zone"),
                               "would_read_back_clean_if_accepted": sum(1 for c in r_zone.printed.get("CASE", []) if c["cls"] == "zone" and c["zs"])}),
-                          "positions": 3, "forms": ["str", "file(LF)"], "ws": [False, True]}
-    phase["tlc_bounded+controls_s"] = round(time.time() - t_ph, 1)
+                          "positions": 3, "forms": ["str", "file(LF)"], "ws": [False, True],
+                          "history_lts": {"states": len(g.states), "edges": len(g.edges), "edges_per_action": ops,
+                                          "objects": ["Deb822", "Dsc|Changes", "Dsc|Changes"], "keys": ["A", "N", "Files"],
+                                          "values": [txt(v["v"]) for v in hvalues]}}
+    phase["tlc_bounded+controls+lts_s"] = round(time.time() - t_ph, 1)
     t_ph = time.time()
 
     # 3. (a) every CASE line into the real classes (worker processes, fixed chunks with their own
     #    seeded generators: the result does not depend on the number of processes)
     stats = {}
+    stress = {}
     n_checked = 0
     n_bad = 0
     sampled = set()
     payloads = [(ctx.seed, ctx.tier, off, cases[off:off + CASE_CHUNK]) for off in range(0, len(cases), CASE_CHUNK)]
     try:
         chunk_results = list(pool.imap(replay_chunk, payloads))
+        walk_results = a_walks.get()
     finally:
         pool.close()
         pool.join()
@@ -645,6 +1079,8 @@ def run(ctx):
         n_checked += r["n"]
         for k, n in r["stats"].items():
             stats[k] = stats.get(k, 0) + n
+        for k, n in r["stress"].items():
+            stress[k] = stress.get(k, 0) + n
         for dmsg in r["drift"][:3]:
             ctx.drift(dmsg)
         for vcase, msg in r["violations"]:
@@ -662,9 +1098,28 @@ def run(ctx):
                 "; read back as one paragraph %s from str/StringIO/BytesIO" % show(["A", "B", "C"]) if c["acc"] else "; items() unchanged"))
     ctx.extra["case_replays"] = n_checked
     ctx.extra["case_replay_violations"] = n_bad
+    ctx.extra["size_stressed_replays"] = stress
     ctx.extra["outcomes_per_class"] = {k: n for k, n in sorted(stats.items())}
     ctx.evaluations += max(0, n_checked - len(cases))
-    phase["case_replay_s"] = round(time.time() - t_ph, 1)
+    # walks
+    n_walks = n_steps = n_wbad = 0
+    wops = {}
+    for r in walk_results:
+        if r.get("crash"):
+            raise core.MachineryError("history replay worker failed:\n" + r["crash"])
+        n_walks += r["n"]
+        n_steps += r["steps"]
+        for k, n in r["ops"].items():
+            wops[k] = wops.get(k, 0) + n
+        for vcase, msg in r["violations"]:
+            if n_wbad < 3:
+                ctx.violation(vcase, msg)
+            n_wbad += 1
+    for w in range(n_walks):
+        ctx.distinct.add(("walk", w))
+    ctx.evaluations += n_steps
+    ctx.extra["history_walks"] = {"walks": n_walks, "steps": n_steps, "steps_per_action": wops, "violations": n_wbad}
+    phase["replay_s"] = round(time.time() - t_ph, 1)
 
     # 4. results of the trace validation
     n_rej = 0
@@ -683,20 +1138,22 @@ def run(ctx):
             t = part[i - 1]
             at, why = info.get(i, (0, []))
             e = t["events"][at] if at < len(t["events"]) else None
-            ctx.violation({"kind": "trace", "cls": t["cls"], "script": t["script"], "first_unexplained_event": at + 1},
-                          "recorded %s history not explained by Deb822Value at event %d: %s; failed obligations %s"
-                          % (t["cls"], at + 1, _evshow(t, at) if e else "?", why))
+            ctx.violation({"kind": "trace", "script": t["script"], "first_unexplained_event": at + 1},
+                          "recorded history on %s not explained by Deb822Value at event %d: %s; failed obligations %s"
+                          % ("/".join(o["cls"] for o in t["objs"]), at + 1, _evshow(t, at) if e else "?", why))
         n_rej += len(rejected)
     nvals = sum(len(t["events"]) for t in traces)
     nacc = sum(1 for t in traces for e in t["events"] if e["acc"])
-    ctx.traces += n_checked + len(traces)
+    ctx.traces += n_checked + n_walks + len(traces)
     ctx.evaluations += nvals
     for i, t in enumerate(traces):
         ctx.distinct.add(("trace", i))
     t0 = traces[0]
-    ctx.sample("recorded %s trace, first events: %s" % (t0["cls"], "; ".join(_evshow(t0, i) for i in range(min(3, len(t0["events"]))))))
+    ctx.sample("recorded trace on %s, first events: %s" % ("/".join(o["cls"] for o in t0["objs"]), "; ".join(_evshow(t0, i) for i in range(min(3, len(t0["events"]))))))
     ctx.extra["traces_recorded"] = len(traces)
     ctx.extra["trace_values"] = {"assigned": nvals, "accepted": nacc, "max_len": max(len(e["v"]) for t in traces for e in t["events"]),
+                                 "multivalued_key_events": sum(1 for t in traces for e in t["events"] if e["obj"] == 0),
+                                 "new_key_events": sum(t["newkeys"] for t in traces),
                                  "reader_model_evaluated_on": sum(len(t["events"]) for t in traces if t["deep"])}
     ctx.extra["traces_rejected"] = n_rej
     ctx.extra["model_vs_observation_differences"] = n_diff
@@ -707,9 +1164,9 @@ def run(ctx):
 
 def _evshow(t, i):
     e = t["events"][i]
-    keys = [txt(f["k"]) for f in t["init"]]
-    s = "%s := %s -> %s" % (keys[e["pos"] - 1], show(txt(e["v"])), e["res"])
-    if e["acc"]:
+    tgt = "throw-away %s" % e["cls"] if e["obj"] == 0 else "object %d (%s)" % (e["obj"], e["cls"])
+    s = "%s [%s] := %s -> %s" % (tgt, txt(e["key"]), show(txt(e["v"])), e["res"])
+    if e["acc"] and e["obj"] != 0:
         s += " read back " + ",".join("%s=%s" % (n, _rbshow({"st": rb_get(e["rb"], n)["st"], "paras": [[txt(k) for k in p] for p in rb_get(e["rb"], n)["paras"]]})) for n in ("sF", "bT"))
     return s
 
@@ -717,10 +1174,14 @@ def _evshow(t, i):
 def replay(ctx, case):
     if case["kind"] == "case":
         conc = Conc.from_json(case["conc"])
-        msg, _ = check_case(case["case"], case["cls"], case["pos"], conc, case.get("route", "setitem"))
+        msg, _ = check_case(case["case"], case["cls"], conc, case.get("route", "setitem"))
+        return msg
+    if case["kind"] == "walk":
+        hc = HistConc.from_json(case["conc"])
+        msg, _ = run_walk(case["path"], case["init"], hc)
         return msg
     if case["kind"] == "trace":
-        new = record_trace(None, case["cls"], 0, script=case["script"])
+        new = record_trace(None, 0, script=case["script"])
         rejected, info, _ = validate(ctx, [new], with_controls=False)
         if rejected:
             at, why = info.get(1, (0, []))
